@@ -61,7 +61,7 @@ def make_replay(rep, ob, concrete=None):
             'solver_output': (ob.output or '')[:20000], 'source_ref': ob.src, 'model': ob.model, 'meta': {k: v for k, v in ob.meta.items() if isinstance(v, (str, int, float, list, dict))}}
     confirmed = None
     rp = ob.meta.get('replayer')
-    if ob.answer == 'sat' and rp is not None:
+    if (ob.answer == 'sat' or (ob.answer == 'unknown' and ob.meta.get('replay_unknown'))) and rp is not None:
         try:
             _t0 = time.time()
             confirmed = guarded(rp, ob)
